@@ -23,6 +23,77 @@ from ..rowtrack import RowTracker as _Reinsert
 from ..truthy import scan_function
 
 
+_ASARRAY = ("np.asarray", "np.array", "np.asanyarray", "numpy.asarray", "numpy.array", "np.ascontiguousarray")
+
+
+def _unwrap_arr(e):
+    while isinstance(e, ast.Call) and norm(e.func) in _ASARRAY and e.args:
+        e = e.args[0]
+    return e
+
+
+def _perm_key(sl, p_idx):
+    """`np.argsort(<indices>)` / `<indices>.argsort()` (through np.asarray): the sorting permutation of the index list"""
+    if isinstance(sl, ast.Call):
+        fn = norm(sl.func)
+        if fn in ("np.argsort", "numpy.argsort") and sl.args and isinstance(_unwrap_arr(sl.args[0]), ast.Name) and _unwrap_arr(sl.args[0]).id == p_idx:
+            if all(k.arg in ("kind", "axis", "stable") for k in sl.keywords) and len(sl.args) == 1:
+                return "argsort"
+        if isinstance(sl.func, ast.Attribute) and sl.func.attr == "argsort" and isinstance(_unwrap_arr(sl.func.value), ast.Name) and _unwrap_arr(sl.func.value).id == p_idx \
+                and not sl.args and all(k.arg in ("kind", "stable") for k in sl.keywords):
+            return "argsort"
+    return None
+
+
+def _canon_selector(text, p_idx):
+    """(canonical selector text, permutation or None): `np.asarray(idx)` addresses the rows `idx` does; `idx[argsort(idx)]`
+    / `np.sort(idx)` address the same rows in ascending order"""
+    try:
+        e = ast.parse(text, mode="eval").body
+    except SyntaxError:
+        return text, None
+    e = _unwrap_arr(e)
+    if isinstance(e, ast.Name):
+        return e.id, None
+    if isinstance(e, ast.Subscript) and isinstance(_unwrap_arr(e.value), ast.Name) and _unwrap_arr(e.value).id == p_idx and _perm_key(e.slice, p_idx):
+        return p_idx, _perm_key(e.slice, p_idx)
+    if isinstance(e, ast.Call) and norm(e.func) in ("np.sort", "numpy.sort", "sorted") and len(e.args) == 1 and isinstance(_unwrap_arr(e.args[0]), ast.Name) and _unwrap_arr(e.args[0]).id == p_idx \
+            and all(k.arg in ("kind", "stable") for k in e.keywords):
+        return p_idx, "argsort"
+    return text, None
+
+
+def _canon_source(text, p_idx, p_new):
+    """(source text with the sorting permutation stripped, occurrences of the removed atoms that carry it, occurrences that
+    do not).  `new[perm].arrays.get(k)` and `new.arrays.get(k)[perm]` are the rows of `new.arrays.get(k)` in sorted order."""
+    try:
+        e = ast.parse(text, mode="eval").body
+    except SyntaxError:
+        return text, [], []
+    permuted, plain = [], []
+
+    class T(ast.NodeTransformer):
+        def __init__(self):
+            self.inside = 0
+
+        def visit_Subscript(self, node):
+            if _perm_key(node.slice, p_idx) and any(isinstance(n, ast.Name) and n.id == p_new for n in ast.walk(node.value)):
+                self.inside += 1
+                v = self.visit(node.value)
+                self.inside -= 1
+                return v
+            return self.generic_visit(node)
+
+        def visit_Name(self, node):
+            if node.id == p_new:
+                (permuted if self.inside else plain).append(node)
+            return node
+
+    e2 = T().visit(e)
+    # the row sources proper: `len(new)` and shape queries do not depend on the order
+    return norm(e2), permuted, plain
+
+
 def check_reinsert(prog: Program, L: Ledger, rule: str) -> None:
     """reinsert_atoms has the scatter/gather shape that inverts `del atoms[indices]`."""
     from ..normalize import flat
@@ -82,6 +153,34 @@ def check_reinsert(prog: Program, L: Ledger, rule: str) -> None:
         return
     L.ok(rule, "reinsert_atoms:result-store", f"{rel}:{fline}")
     old_txt = f"{p_atoms}.arrays[{name}]"
+    # canonical row order: scattering `v[perm]` under `idx[perm]` is scattering `v` under `idx` (the indices are distinct),
+    # so a sorting permutation carried by the selector *and* by every row source is stripped; carried by one side only it
+    # pairs row k of the removed atoms with the k-th smallest index instead of indices[k]
+    canon = []
+    for sel_, val_, ln_ in obj.stores:
+        if sel_[0] == "index":
+            st_, perm_ = _canon_selector(sel_[1], p_idx)
+            vt_, permuted_, plain_ = _canon_source(val_, p_idx, p_new)
+            # occurrences that only ask for the number of rows do not depend on the order
+            bad_ = plain_ if perm_ else permuted_
+            if st_ == p_idx and bad_ and (perm_ or permuted_):
+                which_ = "the index list is sorted" if perm_ else "the index list is in the order of removal"
+                how_ = "are read in the order of removal" if perm_ else "are sorted"
+                L.violation(rule, f"reinsert_atoms:row-order[{'sorted-indices' if perm_ else 'sorted-rows'}]", f"{rel}:{ln_}",
+                            f"{which_} while rows taken from `{val_[:110]}` {how_} ({len(bad_)} of {len(bad_) + len(plain_ if not perm_ else permuted_)} reads of `{p_new}`): row k of the removed atoms no longer lands on the index it was removed from",
+                            f"delete with a non-ascending index list (e.g. {p_idx} = [4, 1]) atoms that differ in that array, re-insert: the values come back swapped", val_[:120])
+            canon.append((("index", st_), vt_, ln_))
+        elif sel_[0] in ("mask", "notmask"):
+            fa_ = tuple(_canon_selector(t_, p_idx)[0] for t_ in sel_[1])
+            canon.append(((sel_[0], fa_) + tuple(sel_[2:]), val_, ln_))
+        else:
+            canon.append((sel_, val_, ln_))
+    obj.stores = canon
+    if obj.trailing is not None:
+        try:
+            obj.trailing = ast.parse(_canon_source(norm(obj.trailing), p_idx, p_new)[0], mode="eval").body  # a shape does not depend on the row order
+        except SyntaxError:
+            pass
     total = (f"len({p_atoms}) + len({p_new})", f"len({p_new}) + len({p_atoms})")
     aline = getattr(obj.node, "lineno", l1.lineno)
     # the re-inserted rows and where they come from
